@@ -254,7 +254,7 @@ class World:
 
     # ------------------------------------------------------------------ fds
     def alloc_fd(self):
-        used = {s._fd for s in self.socks if not s.closed}
+        used = {s._fd for s in self.socks if not s.closed and s._fd is not None and not getattr(s, "in_backlog", False)}
         used |= set(self.pipes) | set(self.wfd2r)
         fd = 3
         while fd in used:
@@ -543,6 +543,11 @@ class FakeSocket:
         if not self.backlog:
             raise OSError(_errno.EAGAIN, "Resource temporarily unavailable")
         c = self.backlog.popleft()
+        # the descriptor number is handed out when accept() returns the socket, not when the environment queued the connection: the
+        # lowest number that is free *now* (so a descriptor closed a moment ago is re-used, as the OS does)
+        c._fd = None
+        c.in_backlog = False
+        c._fd = _W().alloc_fd()
         return c, c.peer_name
 
     def connect(self, addr):
